@@ -71,9 +71,14 @@ class History:
                     break
                 except OSError as e:
                     # the machine's inotify instances / watches are exhausted by other jobs: back off, never a verdict
-                    if e.errno not in (_errno.EMFILE, _errno.ENFILE, _errno.ENOSPC) or attempt == 5:
+                    if e.errno not in (_errno.EMFILE, _errno.ENFILE, _errno.ENOSPC):
                         raise
                     self.c("environment_backoffs")
+                    if attempt == 5:
+                        # still no inotify instance (the per-user limit of 128 is shared with every other job): this case
+                        # is not run; a run with too few cases is inconclusive through its minimum counters
+                        self.c("cases_skipped_for_lack_of_inotify_instances")
+                        return self
                     _time.sleep(1.0 + attempt)
             self.sess = sess
             tree = restrict(sess.initial, True)
@@ -162,6 +167,11 @@ class History:
                         self.v(pid_, "stream-ended-library-thread-died",
                                f"the event stream ended in the middle of the history: {rec['thread_class']} died with {rec['exc_type']}: {rec['exc']}",
                                traceback=rec["traceback"][-1500:], history=self.ops[-30:])
+                elif e.reason == "sentinel-misspelled":
+                    for pid_ in ("C19", "C03"):
+                        self.v(pid_, "path-not-under-root-as-given" if pid_ == "C19" else "wrong-path",
+                               f"the event of the drain sentinel arrived as {e.detail['got']} instead of {e.detail['want']} (the scheduled root joined with the entry's name)",
+                               history=self.ops[-30:])
                 else:
                     # a stalled stream: was monitoring stopped although the root is still there?
                     emitters = list(sess.obs.emitters)
